@@ -19,8 +19,14 @@ def lattice_coord(lim=512):
     return st.integers(-lim, lim).map(lambda k: k / 8.0)
 
 
-def float_coord(mag=1000.0):
-    return st.floats(min_value=-mag, max_value=mag, width=32, allow_nan=False, allow_infinity=False)
+def float_coord(mag=1000.0, min_abs=None):
+    """float32 coordinates in [-mag, mag].  With `min_abs`, magnitudes below it are snapped to 0: the library computes
+    in float32, where the square of a difference below ~1e-19 underflows, so ratio-valued measures (angles, tortuosity)
+    of vectors that short are outside their domain (construction, not filtering)."""
+    base = st.floats(min_value=-mag, max_value=mag, width=32, allow_nan=False, allow_infinity=False)
+    if min_abs is None:
+        return base
+    return base.map(lambda v: v if abs(v) >= min_abs else 0.0)
 
 
 def radius():
@@ -90,7 +96,7 @@ def topology_case(draw, min_n=1, max_n=40, shapes=None, permute=None):
 
 @st.composite
 def tree_case(draw, min_n=1, max_n=40, shapes=None, regimes=None, permute=None, soma_root=None,
-              types_max=7, extras=True, distinct_points=False, mag=1000.0):
+              types_max=7, extras=True, distinct_points=False, mag=1000.0, min_abs=None):
     n = draw(st.integers(min_n, max_n))
     shape = draw(st.sampled_from(shapes or SHAPES))
     regime = draw(st.sampled_from(regimes or REGIMES))
@@ -102,7 +108,7 @@ def tree_case(draw, min_n=1, max_n=40, shapes=None, regimes=None, permute=None, 
     if do_perm and n > 2:
         perm = draw(st.permutations(list(range(1, n))))
         parents, _ = permute_keep_root(parents, perm)
-    coord = lattice_coord() if regime in ("lattice", "coincident") else float_coord(mag)
+    coord = lattice_coord() if regime in ("lattice", "coincident") else float_coord(mag, min_abs)
     xs, ys, zs = [0.0] * n, [0.0] * n, [0.0] * n
     # fill in an order where the parent is known (parents may be > child after permutation)
     order = _topo_order(parents)
